@@ -49,13 +49,16 @@ var c18Once sync.Once
 // ---- operations ----
 
 type c18Op struct {
-	Kind string `json:"kind"` // sub | add | rem | close | ev | tick
+	Kind string `json:"kind"` // sub | add | rem | close | ev | tick | addwin
 	R    int    `json:"r,omitempty"`
 	S    int    `json:"s,omitempty"`
 	H    int    `json:"h,omitempty"`
 	Own  bool   `json:"own,omitempty"`
 	EK   string `json:"ek,omitempty"` // ADDED | MODIFIED | DELETED
 	O    int    `json:"o,omitempty"`
+	// addwin = add(S,H) whose handler is held inside its Blk-th replay callback
+	// while the event (R,EK,O) is emitted, then released
+	Blk int `json:"blk,omitempty"`
 }
 
 func (o c18Op) String() string {
@@ -75,6 +78,8 @@ func (o c18Op) String() string {
 		return fmt.Sprintf("ev(r%d,%s,o%d)", o.R, o.EK, o.O)
 	case "tick":
 		return fmt.Sprintf("tick(s%d,h%d)", o.S, o.H)
+	case "addwin":
+		return fmt.Sprintf("addwin(s%d,h%d,blk%d,ev(r%d,%s,o%d))", o.S, o.H, o.Blk, o.R, o.EK, o.O)
 	}
 	return "?"
 }
@@ -353,6 +358,7 @@ type c18Runner struct {
 	subRes  []int
 	ownLive map[[2]int]bool // (sub,h) added with own timer and not removed since (the harness's record of its own calls)
 	steps   []c18Step
+	windows []int // indices of event steps emitted inside a replay window
 }
 
 func (rn *c18Runner) obj(r, o int, rev int) map[string]interface{} {
@@ -400,7 +406,12 @@ func (rn *c18Runner) guarded(st *c18Step, f func()) {
 	f()
 }
 
-func (rn *c18Runner) do(idx int, op c18Op) {
+func (rn *c18Runner) do(_ int, op c18Op) {
+	idx := len(rn.steps)
+	if op.Kind == "addwin" {
+		rn.addWindow(op)
+		return
+	}
 	w := rn.w
 	st := c18Step{op: op}
 	switch op.Kind {
@@ -528,6 +539,99 @@ func (rn *c18Runner) do(idx int, op c18Op) {
 	rn.steps = append(rn.steps, st)
 }
 
+// addWindow: AddEventHandler(S,H) runs in its own goroutine; its handler stops
+// inside its Blk-th replay callback (channel), the harness lets an object event
+// happen while it is there, then releases it. Ordering is by channels only; the
+// one bounded wait gives a fan-out that (wrongly) does not wait for the add the
+// chance to run inside the window. Emitted as two steps, add then event; the
+// event step is marked as a window.
+func (rn *c18Runner) addWindow(op c18Op) {
+	w := rn.w
+	addOp := c18Op{Kind: "add", S: op.S, H: op.H}
+	evOp := c18Op{Kind: "ev", R: op.R, EK: op.EK, O: op.O}
+	st1, st2 := c18Step{op: addOp}, c18Step{op: evOp}
+	entered, release, done := make(chan struct{}), make(chan struct{}), make(chan struct{})
+	inner := rn.rec.handler(op.S, op.H)
+	var mu sync.Mutex
+	replays := 0
+	h := cache.ResourceEventHandlerFuncs{
+		AddFunc: func(obj interface{}) { inner.OnAdd(obj, false) },
+		UpdateFunc: func(oldObj, newObj interface{}) {
+			inner.OnUpdate(oldObj, newObj)
+			if oldObj == newObj && c18ObjID(newObj) >= 0 {
+				mu.Lock()
+				n := replays
+				replays++
+				mu.Unlock()
+				if n == op.Blk {
+					close(entered)
+					<-release
+				}
+			}
+		},
+		DeleteFunc: func(obj interface{}) { inner.OnDelete(obj) },
+	}
+	go func() {
+		defer close(done)
+		rn.guarded(&st1, func() { rn.subs[op.S].Informer().AddEventHandler(h) })
+	}()
+	inWindow := false
+	select {
+	case <-entered:
+		inWindow = true
+	case <-done: // fewer cached objects than Blk: no window, plain add then event
+	case <-time.After(5 * time.Second):
+		st1.issues = append(st1.issues, "window-never-entered")
+	}
+	res := c18Resources[op.R]
+	name := fmt.Sprintf("o%d", op.O)
+	sri := w.curSRI(op.R)
+	stored := w.srv.Seed(rn.obj(op.R, op.O, len(rn.steps)))
+	w.srv.Emit(op.EK, stored)
+	if sri != nil && w.watchCount(op.R) > 0 {
+		wantRV, _, _ := unstructured.NestedString(stored, "metadata", "resourceVersion")
+		if !c18Until(2*time.Second, func() bool {
+			cur, exists, _ := sri.informer.GetIndexer().GetByKey(c18Namespace + "/" + name)
+			return exists && cur.(*unstructured.Unstructured).GetResourceVersion() == wantRV
+		}) {
+			st2.issues = append(st2.issues, "indexer-never-updated")
+		}
+		if inWindow {
+			// a fan-out that does not wait for the pending add reaches the other handlers now
+			c18Until(25*time.Millisecond, func() bool {
+				return rn.rec.count(func(d c18Del) bool {
+					return d.kind != 'S' && d.obj == op.O && !(d.sub == op.S && d.h == op.H)
+				}) > 0
+			})
+		}
+	}
+	_ = res
+	close(release)
+	<-done
+	if sri != nil && w.watchCount(op.R) > 0 {
+		if !w.barrier(op.R, sri) {
+			st2.issues = append(st2.issues, "barrier-timeout")
+		}
+	}
+	time.Sleep(c18Settle)
+	for _, d := range rn.rec.take() {
+		if d.kind == 'S' && d.sub == op.S && d.h == op.H {
+			st1.dels = append(st1.dels, d)
+		} else {
+			st2.dels = append(st2.dels, d)
+		}
+	}
+	for r := 0; r < w.nres; r++ {
+		st1.watch = append(st1.watch, w.watchCount(r))
+		st1.lists = append(st1.lists, w.listCount(r))
+	}
+	st2.watch, st2.lists = st1.watch, st1.lists
+	rn.steps = append(rn.steps, st1, st2)
+	if inWindow {
+		rn.windows = append(rn.windows, len(rn.steps)-1)
+	}
+}
+
 func (rn *c18Runner) cleanup() {
 	for _, ri := range rn.subs {
 		func() {
@@ -539,9 +643,10 @@ func (rn *c18Runner) cleanup() {
 }
 
 type c18Result struct {
-	spec   c18Spec
-	steps  []c18Step
-	goErrs []string
+	spec    c18Spec
+	steps   []c18Step
+	windows []int
+	goErrs  []string
 }
 
 func c18Run(spec c18Spec) c18Result {
@@ -564,7 +669,7 @@ func c18Run(spec c18Spec) c18Result {
 			}
 		}
 	}
-	return c18Result{spec: spec, steps: rn.steps, goErrs: goErrs}
+	return c18Result{spec: spec, steps: rn.steps, windows: rn.windows, goErrs: goErrs}
 }
 
 // concurrentSubscribe: k goroutines, released together, call
@@ -650,6 +755,31 @@ func (rn *c18Runner) concurrentSubscribe(k, r int) []string {
 
 // one round of the concurrent leg: k concurrent subscribes, then the survivor
 // must keep working while the others close, and the last close stops the watch
+// replay-window leg: ncache objects are cached, subscriber 0 has a handler;
+// a handler is added (through subscription 1 of the same informer, or through
+// subscription 0 itself) and held in its blk-th replay callback while a NEW
+// object appears; afterwards a MODIFIED of it must reach everybody, and the
+// usual removal/close tail follows.
+func c18WindowSpec(ncache, blk int, sameSub bool, twice bool) c18Spec {
+	ops := []c18Op{{Kind: "sub", R: 0}, {Kind: "sub", R: 0}}
+	for o := 0; o < ncache; o++ {
+		ops = append(ops, c18Op{Kind: "ev", R: 0, EK: "ADDED", O: o})
+	}
+	s := 1
+	if sameSub {
+		s = 0
+	}
+	ops = append(ops, c18Op{Kind: "add", S: 0, H: 0},
+		c18Op{Kind: "addwin", S: s, H: 1, Blk: blk, R: 0, EK: "ADDED", O: ncache})
+	if twice {
+		// a second window on top: another handler, another new object
+		ops = append(ops, c18Op{Kind: "addwin", S: 1, H: 2, Blk: blk, R: 0, EK: "ADDED", O: ncache + 1})
+	}
+	ops = append(ops, c18Op{Kind: "ev", R: 0, EK: "MODIFIED", O: ncache},
+		c18Op{Kind: "rem", S: 0}, c18Op{Kind: "close", S: 0}, c18Op{Kind: "ev", R: 0, EK: "DELETED", O: 0}, c18Op{Kind: "close", S: 1})
+	return c18Spec{NRes: 1, Ops: ops, Stream: "replay-window", Features: []string{"replay-window", "shared-informer"}}
+}
+
 func c18ConcurrentSpec(round, k int, full bool) c18Spec {
 	r := round % 2
 	ops := make([]c18Op, 0, 2*k+3)
@@ -715,7 +845,7 @@ func c18CoqCase(res c18Result) string {
 		fmt.Fprintf(&b, "mkObs %s [%s] %s %s %s", st.op.coq(), strings.Join(parts, "; "), vh.CoqBool(st.panic),
 			c18ZList(st.watch), c18ZList(st.lists))
 	}
-	b.WriteString("]")
+	b.WriteString("] " + c18ZList(res.windows))
 	return b.String()
 }
 
@@ -1147,6 +1277,23 @@ func TestVerif_C18(t *testing.T) {
 		}
 		for i := 0; i < 10*rounds; i++ {
 			push(fmt.Sprintf("ps%d", i), c18ConcurrentSpec(i, 4+i%9, false))
+		}
+		// replay-window leg (both tiers): an object appears while a handler is
+		// inside its add-time replay; window in the first / a middle / the last callback
+		wrounds := 2
+		if env.Tier == "thorough" {
+			wrounds = 10
+		}
+		wn := 0
+		for round := 0; round < wrounds; round++ {
+			for ncache := 1; ncache <= 3; ncache++ {
+				for blk := 0; blk < ncache; blk++ {
+					for v := 0; v < 4; v++ {
+						push(fmt.Sprintf("w%d", wn), c18WindowSpec(ncache, blk, v&1 == 1, v&2 == 2))
+						wn++
+					}
+				}
+			}
 		}
 		// sampled part: the bigger spaces
 		n := env.N
